@@ -79,6 +79,9 @@ type c15Case struct {
 	// Removal (with Incremental): the new program is the old one with the last entries of its prefix sets removed
 	// (at least one entry stays, and only entries that do not occur among the kept ones go), made with DeleteDefinedSet
 	Removal bool `json:"removal,omitempty"`
+	// ReplaceSets (with Incremental): the new program has other prefix sets altogether, put in place with
+	// AddDefinedSet(replace) - the policies and statements that refer to them are not touched
+	ReplaceSets bool `json:"replace_sets,omitempty"`
 	// StaleSource: source peer 0 negotiates graceful restart and loses its transport after its
 	// announcements, so its routes are retained as stale when the policy changes
 	StaleSource bool `json:"stale_source"`
@@ -155,8 +158,16 @@ func drawC15(t *rapid.T) c15Case {
 	c.Incremental = rapid.IntRange(0, 3).Draw(t, "incremental") == 0
 	if c.Incremental {
 		c.New.Import, c.New.Export = c.Old.Import, c.Old.Export
-		c.Removal = rapid.IntRange(0, 2).Draw(t, "removal") == 0
+		switch rapid.IntRange(0, 3).Draw(t, "removal") {
+		case 0:
+			c.Removal = true
+		case 1:
+			c.ReplaceSets = true
+		}
 		for i := range c.New.PrefixSets {
+			if c.ReplaceSets {
+				continue // as drawn for the new program
+			}
 			if c.Removal {
 				old := c.Old.PrefixSets[i]
 				keep := len(old)
@@ -549,7 +560,9 @@ func runC15(t *testing.T) func(c c15Case, st *verifkit.Stats) *verifkit.Failure 
 			if c.Incremental {
 				for i, es := range c.New.PrefixSets {
 					var extra []string
-					if c.Removal {
+					if c.ReplaceSets {
+						extra = es
+					} else if c.Removal {
 						extra = c.Old.PrefixSets[i][len(es):]
 						if len(extra) == 0 {
 							continue
@@ -572,7 +585,7 @@ func runC15(t *testing.T) func(c c15Case, st *verifkit.Stats) *verifkit.Failure 
 						}
 						continue
 					}
-					if err := r.n.s.AddDefinedSet(context.Background(), &api.AddDefinedSetRequest{DefinedSet: ds, Replace: false}); err != nil {
+					if err := r.n.s.AddDefinedSet(context.Background(), &api.AddDefinedSetRequest{DefinedSet: ds, Replace: c.ReplaceSets}); err != nil {
 						return verifkit.Failf("setup", "AddDefinedSet: %v", err)
 					}
 				}
@@ -662,6 +675,9 @@ func runC15(t *testing.T) func(c c15Case, st *verifkit.Stats) *verifkit.Failure 
 		}
 		if c.Removal {
 			st.Label("incremental-removal")
+		}
+		if c.ReplaceSets {
+			st.Label("incremental-replace")
 		}
 		if c.StaleSource {
 			st.Label("stale-source")
